@@ -62,28 +62,42 @@ func ruleSuiteProvenance(c *Ctx, r *Report) {
 	// server 1.2: the offer is filtered by IDSupportsVersion before the intersection
 	if fn := c.need(r, rule, pkgF12+".flight0Parse"); fn != nil {
 		calls := findCalls(fn, nameIs("internal/flight.FindMatchingCipherSuite"))
-		filt := findCalls(fn, nameIs("internal/ciphersuite.IDSupportsVersion"))
-		ok := len(calls) == 1 && len(filt) >= 1
+		ok := len(calls) == 1
 		if ok {
 			// the first argument is built only from elements that passed the filter: the append feeding
-			// it is unreachable when IDSupportsVersion is false
+			// it (in the parser or in a private helper that builds the list) is unreachable, within the
+			// iteration, when IDSupportsVersion said no
 			a0 := calls[0].Call.Args[0]
 			var apps []*ssa.Call
-			for _, l := range c.Origins(a0, 0) {
+			for _, l := range c.OriginsThrough(a0, 0) {
 				if call, isCall := l.(*ssa.Call); isCall && calleeName(&call.Call) == "builtin:append" {
 					apps = append(apps, call)
 				}
 			}
-			w := (&Walk{Fn: fn, Assume: failAssumption(filt[0])}).After(filt[0])
-			hdr := loopHeaderOf(filt[0].Block())
-			_ = hdr
+			nGuardedStage := 0
 			for _, ap := range apps {
-				if ap.Block() == filt[0].Block() || filt[0].Block().Dominates(ap.Block()) {
-					// same iteration: must not be reached when the filter said no, before the next iteration
-					w2 := &Walk{Fn: fn, Assume: failAssumption(filt[0])}
+				host := ap.Parent()
+				filt := findCalls(host, nameIs("internal/ciphersuite.IDSupportsVersion"))
+				underFilter := false
+				for _, fc := range filt {
+					if ap.Block() == fc.Block() || fc.Block().Dominates(ap.Block()) {
+						underFilter = true
+					}
+				}
+				if !underFilter {
+					continue // an earlier, unfiltered stage of the list (filtered again below)
+				}
+				nGuardedStage++
+				guarded := false
+				for _, fc := range filt {
+					if !(ap.Block() == fc.Block() || fc.Block().Dominates(ap.Block())) {
+						continue
+					}
+					f0 := fc
+					w2 := &Walk{Fn: host, Assume: failAssumption(f0)}
 					reached := false
 					w2.Visit = func(in ssa.Instruction, _ Env) bool {
-						if in == ssa.Instruction(filt[0]) {
+						if in == ssa.Instruction(f0) {
 							return false // next iteration
 						}
 						if in == ssa.Instruction(ap) {
@@ -91,13 +105,18 @@ func ruleSuiteProvenance(c *Ctx, r *Report) {
 						}
 						return true
 					}
-					w2.After(filt[0])
-					if reached {
-						ok = false
+					w2.After(f0)
+					if !reached {
+						guarded = true
 					}
 				}
+				if !guarded {
+					ok = false
+				}
 			}
-			_ = w
+			if nGuardedStage == 0 {
+				ok = false
+			}
 		}
 		r.Check(ok, rule, short(fn)+":version-filter", c.pos(fn.Pos()), "offered suites are filtered by IDSupportsVersion(…, 1.2) before the intersection", "the DTLS 1.2 server no longer filters the offered suites by protocol version before choosing")
 	}
